@@ -121,7 +121,7 @@ func isRemovalNotify(fn *ssa.Function, site ssa.CallInstruction) (bool, bool) {
 	found, removal := false, false
 	for _, s2 := range callsIn(fn) {
 		sc := s2.Common().StaticCallee()
-		if sc == nil || sc.Name() != "subscription" {
+		if sc == nil || cname(sc) != "subscription" {
 			continue
 		}
 		found = true
@@ -157,10 +157,10 @@ func c11r2(p *Prog, r *Reporter) {
 			return false
 		}
 		sc := c.Common().StaticCallee()
-		if sc.Name() == "Recycle" && typeName(recvType(sc)) == "entityPool" {
+		if cname(sc) == "Recycle" && typeName(recvType(sc)) == "entityPool" {
 			return true
 		}
-		return typeName(recvType(sc)) == "archetype" && (sc.Name() == "Remove" || sc.Name() == "Reset")
+		return typeName(recvType(sc)) == "archetype" && (cname(sc) == "Remove" || cname(sc) == "Reset")
 	}
 	for _, fn := range p.Funcs {
 		if fn.Pkg == nil || fn.Pkg.Pkg.Name() != "ecs" {
